@@ -1708,7 +1708,7 @@ theorem digits_len_pow2 {k bits W : Nat} (hk : 0 < k) (hbits : 0 < bits) (hlo : 
 theorem sizeinbase_pow2_of_table {b : Nat} (hok : Pow2Ok b) (hp : pow2P b = true) (x : Int) :
     mpz_sizeinbase x b = if x = 0 then 1 else (digitsOf b x.natAbs).length := by
   obtain ⟨hpow, hbpd, _, _⟩ := hok
-  unfold mpz_sizeinbase sizeinbase
+  unfold mpz_sizeinbase sizeinbase sizeinbaseBits
   by_cases hx : x = 0
   · subst hx; simp [natLimbs_zero]
   · have hxn : x.natAbs ≠ 0 := by omega
@@ -1727,5 +1727,342 @@ theorem sizeinbase_pow2_of_table {b : Nat} (hok : Pow2Ok b) (hp : pow2P b = true
       unfold clz; omega
     conv_rhs => rw [← hpow]
     exact (digits_len_pow2 hbpd hpos hlo hhi).symm
+
+/-! ### MPN_SIZEINBASE, bases that are not powers of two -/
+
+theorem rn53_small {t : Nat} (ht : t < 2 ^ 53) (k : Nat) : rn53 t k = (t, 0, k) := by
+  unfold rn53
+  have : (if t = 0 then 0 else Nat.log2 t + 1) ≤ 53 := by
+    split
+    · omega
+    · rename_i h
+      have := (Nat.log2_lt h).mpr ht; omega
+  simp only [this, if_true]
+
+/-- round-to-nearest-even on 53 bits: exact at integers (when the unit in the last place is at most 1) and
+    never more than half a unit above -/
+theorem rn53_spec (N k : Nat) (hN : N < 2 ^ 77) (hk : 24 ≤ k) :
+    (rn53 N k).2.2 = k ∧
+    (∀ n, n * 2 ^ k ≤ N → n * 2 ^ k ≤ (rn53 N k).1 <<< (rn53 N k).2.1) ∧
+    (rn53 N k).1 <<< (rn53 N k).2.1 ≤ N + 2 ^ 23 := by
+  unfold rn53
+  by_cases hlen : (if N = 0 then 0 else Nat.log2 N + 1) ≤ 53
+  · simp only [hlen, if_true, Nat.shiftLeft_zero]
+    exact ⟨trivial, fun n h => h, by omega⟩
+  · simp only [hlen, if_false]
+    have hN0 : N ≠ 0 := by
+      intro h; rw [h] at hlen; simp at hlen
+    simp only [hN0, if_false] at hlen ⊢
+    have hl77 : Nat.log2 N < 77 := (Nat.log2_lt hN0).mpr hN
+    generalize hs : Nat.log2 N + 1 - 53 = s at *
+    have hs1 : 1 ≤ s := by omega
+    have hs24 : s ≤ 24 := by omega
+    have hdm := Nat.div_add_mod N (2 ^ s)
+    have hrem := Nat.mod_lt N (Nat.pow_pos (n := s) (show 0 < 2 by omega))
+    rw [Nat.shiftRight_eq_div_pow]
+    generalize N / 2 ^ s = q at *
+    generalize N % 2 ^ s = rem at *
+    have hhalf : 2 ^ s = 2 * 2 ^ (s - 1) := by
+      rw [← pow_succ']; congr 1; omega
+    have h23 : 2 ^ (s - 1) ≤ 2 ^ 23 := Nat.pow_le_pow_right (by omega) (by omega)
+    refine ⟨trivial, ?_, ?_⟩
+    · intro n hn
+      -- n·2^k is a multiple of 2^s
+      have hks : 2 ^ k = 2 ^ s * 2 ^ (k - s) := by rw [← pow_add]; congr 1; omega
+      have hq : n * 2 ^ (k - s) ≤ q := by
+        have : 2 ^ s * (n * 2 ^ (k - s)) ≤ 2 ^ s * q + rem := by
+          rw [hdm]; calc 2 ^ s * (n * 2 ^ (k - s)) = n * 2 ^ k := by rw [hks]; ring
+            _ ≤ N := hn
+        by_contra hcon
+        have : q + 1 ≤ n * 2 ^ (k - s) := by omega
+        have := Nat.mul_le_mul_left (2 ^ s) this
+        rw [Nat.mul_add, Nat.mul_one] at this; omega
+      rw [Nat.shiftLeft_eq]
+      have hqq : q ≤ (if rem > 2 ^ (s - 1) ∨ rem = 2 ^ (s - 1) ∧ q % 2 = 1 then q + 1 else q) := by
+        split <;> omega
+      calc n * 2 ^ k = n * 2 ^ (k - s) * 2 ^ s := by rw [hks]; ring
+        _ ≤ q * 2 ^ s := Nat.mul_le_mul_right _ hq
+        _ ≤ _ := Nat.mul_le_mul_right _ hqq
+    · rw [Nat.shiftLeft_eq]
+      split
+      · rename_i hup
+        have : 2 ^ (s - 1) ≤ rem := by rcases hup with h | h <;> omega
+        rw [Nat.add_mul, Nat.one_mul]
+        rw [Nat.mul_comm] at hdm; omega
+      · rw [Nat.mul_comm] at hdm; omega
+
+theorem mulTrunc_spec {t bits M k : Nat} (hdec : decodeDouble bits = (M, k)) (ht : t ≤ 2 ^ 24) (hM : M < 2 ^ 53)
+    (hk : 53 ≤ k) :
+    t * M / 2 ^ k ≤ mulTrunc t bits ∧ mulTrunc t bits * 2 ^ k ≤ t * M + 2 ^ 23 := by
+  have ht53 : t < 2 ^ 53 := lt_of_le_of_lt ht (by norm_num)
+  unfold mulTrunc
+  rw [hdec, rn53_small ht53 0]
+  simp only [Nat.add_zero]
+  have hN : t * M < 2 ^ 77 := by
+    have h1 : t * M ≤ 2 ^ 24 * M := Nat.mul_le_mul_right _ ht
+    have h2 : 2 ^ 24 * M < 2 ^ 24 * 2 ^ 53 := Nat.mul_lt_mul_of_pos_left hM (by norm_num)
+    have h3 : (2 : Nat) ^ 24 * 2 ^ 53 = 2 ^ 77 := by rw [← pow_add]
+    omega
+  obtain ⟨e, lo, hi⟩ := rn53_spec (t * M) k hN (by omega)
+  generalize rn53 (t * M) k = res at *
+  obtain ⟨p, pu, pk⟩ := res
+  simp only at e lo hi ⊢
+  subst e
+  have hp : 0 < 2 ^ pk := Nat.pow_pos (by omega)
+  refine ⟨?_, ?_⟩
+  · rw [Nat.le_div_iff_mul_le hp]
+    exact lo _ (Nat.div_mul_le_self _ _)
+  · exact le_trans (Nat.div_mul_le_self _ _) hi
+
+/-- `b^n ≤ 2^t` and `2^v < b^u` (i.e. n/t ≤ log_b 2 < u/v) give n·v < t·u -/
+theorem pow_ratio_lt {b n t u v : Nat} (h1 : b ^ n ≤ 2 ^ t) (h2 : 2 ^ v < b ^ u) (ht : 0 < t) : n * v < t * u := by
+  by_contra hcon
+  have hle : t * u ≤ n * v := by omega
+  have hb : 0 < b := by
+    rcases Nat.eq_zero_or_pos b with rfl | h
+    · rcases Nat.eq_zero_or_pos u with rfl | hu
+      · simp at h2
+      · rw [Nat.zero_pow hu] at h2; exact absurd h2 (Nat.not_lt_zero _)
+    · exact h
+  have c1 : (b ^ u) ^ t ≤ (b ^ n) ^ v := by
+    rw [← pow_mul, ← pow_mul, Nat.mul_comm u t]; exact Nat.pow_le_pow_right hb hle
+  have c2 : (b ^ n) ^ v ≤ (2 ^ t) ^ v := Nat.pow_le_pow_left h1 v
+  have c3 : (2 ^ t) ^ v = (2 ^ v) ^ t := by rw [← pow_mul, ← pow_mul, Nat.mul_comm]
+  have c4 : (2 ^ v) ^ t < (b ^ u) ^ t := Nat.pow_lt_pow_left h2 (by omega)
+  omega
+
+/-- `b^p ≤ 2^q` (p/q ≤ log_b 2) and m·q ≤ s·p give b^m ≤ 2^s -/
+theorem pow_ratio_le {b m s p q : Nat} (hb : 0 < b) (h : b ^ p ≤ 2 ^ q) (hq : 0 < q) (hm : m * q ≤ s * p) :
+    b ^ m ≤ 2 ^ s := by
+  have c1 : (b ^ m) ^ q ≤ (b ^ p) ^ s := by
+    rw [← pow_mul, ← pow_mul, Nat.mul_comm p s]; exact Nat.pow_le_pow_right hb hm
+  have c2 : (b ^ p) ^ s ≤ (2 ^ q) ^ s := Nat.pow_le_pow_left h s
+  have c3 : (2 ^ q) ^ s = (2 ^ s) ^ q := by rw [← pow_mul, ← pow_mul, Nat.mul_comm]
+  exact (Nat.pow_le_pow_iff_left (by omega)).mp (le_trans c1 (c3 ▸ c2))
+
+/-- Farey neighbours: a fraction n/t strictly between u1/v1 and u2/v2 with u2·v1 - u1·v2 = 1 has t ≥ v1 + v2 -/
+theorem farey_den {n t u1 v1 u2 v2 : Nat} (hadj : u2 * v1 = u1 * v2 + 1) (hlo : t * u1 < n * v1) (hhi : n * v2 < t * u2) :
+    v1 + v2 ≤ t := by
+  have h1 : t * u1 + 1 ≤ n * v1 := hlo
+  have h2 : n * v2 + 1 ≤ t * u2 := hhi
+  have e1 := Nat.mul_le_mul_left v2 h1
+  have e2 := Nat.mul_le_mul_left v1 h2
+  have e3 : t * (u2 * v1) = t * (u1 * v2) + t := by rw [hadj]; ring
+  nlinarith
+
+/-- bit-length bound of `sizeinbase_bound_partial` -/
+def sibT : Nat := 2 ^ 24
+
+/-- Proof hints, one row per base 2..62 (dummy rows for powers of two): `(p1, q1, u1, v1, u2, v2)` with
+    p1/q1 ≤ log_b 2 (a convergent) and Farey neighbours u1/v1 ≤ chars_per_bit_exactly, log_b 2 < u2/v2,
+    v1 + v2 > sibT.  Nothing here is trusted: `SibOk` re-checks every property in the kernel. -/
+def sibHints : List (Nat × Nat × Nat × Nat × Nat × Nat) := [
+  (0, 1, 0, 1, 1, 1),
+  (190537, 301994, 190537, 301994, 10400200, 16483927),
+  (0, 1, 0, 1, 1, 1),
+  (97879, 227268, 1936274, 4495889, 5710943, 13260399),
+  (190537, 492531, 190537, 492531, 6398923, 16540976),
+  (91313, 256348, 3720121, 10443700, 4173722, 11717119),
+  (0, 1, 0, 1, 1, 1),
+  (190537, 603988, 190537, 603988, 5200100, 16483927),
+  (97879, 325147, 1936274, 6432163, 3774669, 12539179),
+  (417431, 1444074, 1686227, 5833387, 4641250, 16056087),
+  (190537, 683068, 190537, 683068, 4493553, 16109219),
+  (5458, 20197, 4516757, 16713987, 54353, 201130),
+  (91313, 347661, 3720121, 14163821, 4173722, 15890841),
+  (416263, 1626294, 416263, 1626294, 4070577, 15903299),
+  (0, 1, 0, 1, 1, 1),
+  (32631, 133378, 4102668, 16769503, 36667, 149875),
+  (190537, 794525, 190537, 794525, 3866341, 16122352),
+  (163451, 694328, 163451, 694328, 3843692, 16327725),
+  (97879, 423026, 1936274, 8368437, 3774669, 16313848),
+  (118580, 520841, 1454590, 6389021, 3042781, 13364860),
+  (417431, 1861505, 1686227, 7519614, 2955023, 13177723),
+  (35969, 162708, 3105451, 14047700, 1160048, 5247549),
+  (190537, 873605, 190537, 873605, 3540868, 16234747),
+  (97879, 454536, 968137, 4495889, 2806532, 13033131),
+  (5458, 25655, 3538403, 16632050, 54353, 255483),
+  (190537, 905982, 190537, 905982, 3403221, 16181933),
+  (91313, 438974, 3266520, 15703321, 453601, 2180621),
+  (390321, 1896172, 2596913, 12615754, 1103296, 5359791),
+  (416263, 2042557, 416263, 2042557, 3238051, 15888762),
+  (31766, 157375, 2354068, 11662515, 1644671, 8148023),
+  (0, 1, 0, 1, 1, 1),
+  (134680, 679379, 2948386, 14872821, 622177, 3138506),
+  (32631, 166009, 3295994, 16768247, 36667, 186542),
+  (158358, 812263, 1923323, 9865268, 2276316, 11675869),
+  (190537, 985062, 190537, 985062, 3104193, 16048445),
+  (170754, 889535, 3167803, 16502522, 176297, 918411),
+  (163451, 857779, 163451, 857779, 3189888, 16740301),
+  (133671, 706505, 2872553, 15182598, 1622363, 8574841),
+  (97879, 520905, 1936274, 10304711, 1838395, 9783806),
+  (3317, 17771, 2934499, 15721731, 1465591, 7851980),
+  (118580, 639421, 1454590, 7843611, 3042781, 16407641),
+  (163253, 885854, 1679041, 9110921, 1515788, 8225067),
+  (4856, 26511, 1686227, 9205841, 2955023, 16132746),
+  (15466, 84937, 3041585, 16703938, 2054707, 11284149),
+  (35969, 198677, 1945403, 10745554, 1160048, 6407597),
+  (178269, 990211, 178269, 990211, 2865292, 15915519),
+  (190537, 1064142, 190537, 1064142, 2969257, 16583189),
+  (272457, 1529767, 1633260, 9170281, 2086861, 11717119),
+  (97879, 552415, 968137, 5464026, 2806532, 15839663),
+  (350833, 1990074, 350833, 1990074, 2842494, 16123835),
+  (5458, 31113, 2940520, 16762257, 54353, 309836),
+  (18807, 107725, 634807, 3636124, 2627228, 15048553),
+  (190537, 1096519, 190537, 1096519, 2831610, 16295597),
+  (57821, 334284, 2567482, 14843537, 2795633, 16162560),
+  (91313, 530287, 2812919, 16335619, 453601, 2634222),
+  (210909, 1230209, 1999312, 11661767, 2756855, 16080432),
+  (67667, 396392, 2596913, 15212667, 1103296, 6463087),
+  (57585, 338752, 2804836, 16499849, 1594537, 9380092),
+  (92053, 543747, 416263, 2458820, 2821788, 16667993),
+  (190781, 1131472, 1692427, 10037340, 1221625, 7245137),
+  (31766, 189141, 2354068, 14016583, 1644671, 9792694)]
+
+def sibHint (b : Nat) : Nat × Nat × Nat × Nat × Nat × Nat := sibHints.getD (b - 2) (0, 1, 0, 1, 1, 1)
+def dM (b : Nat) : Nat := (decodeDouble (cpbeBits b)).1
+def dk (b : Nat) : Nat := (decodeDouble (cpbeBits b)).2
+
+/-- the per-base certificate checked by the kernel -/
+def SibOk (b : Nat) : Prop :=
+  (sibHint b).2.2.2.2.1 * (sibHint b).2.2.2.1 = (sibHint b).2.2.1 * (sibHint b).2.2.2.2.2 + 1 ∧   -- u2·v1 = u1·v2 + 1
+  (sibHint b).2.2.1 * 2 ^ dk b ≤ dM b * (sibHint b).2.2.2.1 ∧                                      -- u1/v1 ≤ c
+  2 ^ (sibHint b).2.2.2.2.2 < b ^ (sibHint b).2.2.2.2.1 ∧                                          -- log_b 2 < u2/v2
+  sibT < (sibHint b).2.2.2.1 + (sibHint b).2.2.2.2.2 ∧                                             -- v1 + v2 > T
+  b ^ (sibHint b).1 ≤ 2 ^ (sibHint b).2.1 ∧ 0 < (sibHint b).2.1 ∧                                  -- p1/q1 ≤ log_b 2
+  sibT * (dM b * (sibHint b).2.1 - (sibHint b).1 * 2 ^ dk b) + (sibHint b).2.1 * 2 ^ (dk b - 30)
+      + (sibHint b).1 * 2 ^ dk b ≤ (sibHint b).2.1 * 2 ^ dk b ∧                                    -- T·(c - p1/q1) + 2^-30 ≤ 1 - p1/q1
+  53 ≤ dk b ∧ dM b < 2 ^ 53
+instance (b : Nat) : Decidable (SibOk b) := by unfold SibOk; infer_instance
+
+/-- from the certificate: for every bit length `1 ≤ t ≤ 2^24`, the model's answer `r` satisfies
+    `2^t ≤ b^r` (so no `t`-bit number has more than `r` digits) and `b^(r-2) ≤ 2^(t-1)` (so every `t`-bit
+    number has at least `r-1` digits) -/
+theorem sib_sound {b : Nat} (hb : 2 ≤ b) (hok : SibOk b) (t : Nat) (ht1 : 1 ≤ t) (htT : t ≤ sibT) :
+    2 ^ t ≤ b ^ (mulTrunc t (cpbeBits b) + 1) ∧ b ^ (mulTrunc t (cpbeBits b) + 1 - 2) ≤ 2 ^ (t - 1) := by
+  obtain ⟨hadj, hu1, hu2, hT, hp1, hq1, h6, hk53, hM53⟩ := hok
+  have hdec : decodeDouble (cpbeBits b) = (dM b, dk b) := rfl
+  obtain ⟨mlo, mhi⟩ := mulTrunc_spec hdec (by unfold sibT at htT; exact htT) hM53 hk53
+  generalize mulTrunc t (cpbeBits b) = m2 at *
+  generalize dM b = M at *
+  generalize dk b = k at *
+  generalize hh : sibHint b = h at *
+  obtain ⟨p1, q1, u1, v1, u2, v2⟩ := h
+  simp only at hadj hu1 hu2 hT hp1 hq1 h6
+  have hkpos : 0 < 2 ^ k := Nat.pow_pos (by omega)
+  constructor
+  · -- 2^t ≤ b^(m2+1)
+    by_contra hcon
+    have hlt : b ^ (m2 + 1) ≤ 2 ^ t := by omega
+    have hr2 := pow_ratio_lt hlt hu2 (by omega)
+    -- (m2+1)·2^k > t·M
+    have hgt : t * M < (m2 + 1) * 2 ^ k := by
+      have := Nat.lt_succ_of_le mlo
+      rw [Nat.div_lt_iff_lt_mul hkpos] at this; exact this
+    have hr1 : t * u1 < (m2 + 1) * v1 := by
+      have a1 : t * u1 * 2 ^ k ≤ t * M * v1 := by
+        have := Nat.mul_le_mul_left t hu1; nlinarith
+      have a2 : t * M * v1 < (m2 + 1) * 2 ^ k * v1 ∨ v1 = 0 := by
+        rcases Nat.eq_zero_or_pos v1 with h | h
+        · exact Or.inr h
+        · exact Or.inl (Nat.mul_lt_mul_of_pos_right hgt h)
+      rcases a2 with a2 | a2
+      · have : t * u1 * 2 ^ k < (m2 + 1) * v1 * 2 ^ k := by nlinarith
+        exact Nat.lt_of_mul_lt_mul_right this
+      · subst a2
+        -- v1 = 0 contradicts adjacency: u2·0 = u1·v2 + 1
+        simp at hadj
+    have := farey_den hadj hr1 hr2
+    omega
+  · -- b^(m2-1) ≤ 2^(t-1)
+    rw [show m2 + 1 - 2 = m2 - 1 by omega]
+    apply pow_ratio_le (by omega) hp1 hq1
+    rcases Nat.eq_zero_or_pos m2 with h0 | h0
+    · subst h0; simp
+    · -- (m2-1)·q1·2^k ≤ (t-1)·p1·2^k
+      have h23 : 2 ^ 23 ≤ 2 ^ (k - 30) := Nat.pow_le_pow_right (by omega) (by omega)
+      have key : (m2 - 1) * q1 * 2 ^ k ≤ (t - 1) * p1 * 2 ^ k := by
+        have e1 : (m2 - 1) * q1 * 2 ^ k = m2 * 2 ^ k * q1 - q1 * 2 ^ k := by
+          rw [Nat.sub_mul, Nat.sub_mul, Nat.one_mul]
+          congr 1; ring
+        have e2 : (t - 1) * p1 * 2 ^ k = t * p1 * 2 ^ k - p1 * 2 ^ k := by
+          rw [Nat.sub_mul, Nat.sub_mul, Nat.one_mul]
+        have hA : m2 * 2 ^ k * q1 ≤ (t * M + 2 ^ 23) * q1 := Nat.mul_le_mul_right _ mhi
+        have hB : t * (M * q1 - p1 * 2 ^ k) ≤ sibT * (M * q1 - p1 * 2 ^ k) := Nat.mul_le_mul_right _ htT
+        have hC : t * (M * q1) ≤ t * (p1 * 2 ^ k) + t * (M * q1 - p1 * 2 ^ k) := by
+          rw [← Nat.mul_add]; exact Nat.mul_le_mul_left _ (by omega)
+        have hD : 2 ^ 23 * q1 ≤ q1 * 2 ^ (k - 30) := by rw [Nat.mul_comm]; exact Nat.mul_le_mul_left _ h23
+        have hE : p1 * 2 ^ k ≤ t * p1 * 2 ^ k := by
+          calc p1 * 2 ^ k = 1 * (p1 * 2 ^ k) := (Nat.one_mul _).symm
+            _ ≤ t * (p1 * 2 ^ k) := Nat.mul_le_mul_right _ ht1
+            _ = t * p1 * 2 ^ k := by ring
+        rw [e1, e2]
+        have hsum : (t * M + 2 ^ 23) * q1 + p1 * 2 ^ k ≤ t * p1 * 2 ^ k + q1 * 2 ^ k := by
+          have : (t * M + 2 ^ 23) * q1 = t * (M * q1) + 2 ^ 23 * q1 := by ring
+          have e3 : t * (p1 * 2 ^ k) = t * p1 * 2 ^ k := by ring
+          omega
+        omega
+      exact Nat.le_of_mul_le_mul_right key hkpos
+
+/-- the digit count `d` of `x > 0` is characterised by `b^(d-1) ≤ x < b^d` -/
+theorem digitsOf_length_bounds {b : Nat} (hb : 2 ≤ b) {x : Nat} (hx : 0 < x) :
+    0 < (digitsOf b x).length ∧ b ^ ((digitsOf b x).length - 1) ≤ x ∧ x < b ^ (digitsOf b x).length := by
+  have hval := ofDigits_digitsOf hb x
+  have hlt := digitsOf_lt hb x
+  have hne := digitsOf_ne_nil hb hx
+  have hhead := digitsOf_head_ne_zero hb x
+  cases hds : digitsOf b x with
+  | nil => exact absurd hds hne
+  | cons d ds =>
+    rw [hds] at hval hlt hhead
+    refine ⟨by simp, ?_, ?_⟩
+    · rw [← hval, ofDigits_cons]
+      simp only [List.length_cons, Nat.add_sub_cancel]
+      have hd : 1 ≤ d := by
+        rcases Nat.eq_zero_or_pos d with h | h
+        · subst h; simp at hhead
+        · exact h
+      calc b ^ ds.length = 1 * b ^ ds.length := (Nat.one_mul _).symm
+        _ ≤ d * b ^ ds.length := Nat.mul_le_mul_right _ hd
+        _ ≤ d * b ^ ds.length + ofDigits b ds := Nat.le_add_right _ _
+    · rw [← hval]; exact ofDigits_lt (by omega) _ hlt
+
+theorem sizeinbase_bound_of {b : Nat} (hb : 2 ≤ b) (hnp : pow2P b = false) (hok : SibOk b) (x : Int) (hx : x ≠ 0)
+    (hbits : x.natAbs < 2 ^ sibT) :
+    mpz_sizeinbase x b = (digitsOf b x.natAbs).length ∨ mpz_sizeinbase x b = (digitsOf b x.natAbs).length + 1 := by
+  have hxn : x.natAbs ≠ 0 := by omega
+  obtain ⟨t1, t2⟩ := natLimbs_top _ hxn
+  obtain ⟨v1, v2⟩ := val_natLimbs x.natAbs
+  obtain ⟨_, hl63, hlo, hhi⟩ := bitlen_bounds v2 t1 t2
+  have hl : ((natLimbs x.natAbs).length == 0) = false := by
+    cases h : natLimbs x.natAbs with
+    | nil => exact absurd h t1
+    | cons a l => rfl
+  unfold mpz_sizeinbase sizeinbase sizeinbaseBits
+  simp only [hl, Bool.false_eq_true, if_false, hnp]
+  rw [Nat.mul_comm (natLimbs x.natAbs).length 64]
+  rw [v1] at hlo hhi
+  have hpos : 0 < 64 * (natLimbs x.natAbs).length - clz (natLimbs x.natAbs).getLast! := by
+    have : 0 < (natLimbs x.natAbs).length := List.length_pos_iff.mpr t1
+    unfold clz; omega
+  generalize 64 * (natLimbs x.natAbs).length - clz (natLimbs x.natAbs).getLast! = t at *
+  -- t ≤ T
+  have htT : t ≤ sibT := by
+    by_contra hcon
+    have : 2 ^ sibT ≤ 2 ^ (t - 1) := Nat.pow_le_pow_right (by omega) (by omega)
+    omega
+  obtain ⟨c1, c2⟩ := sib_sound hb hok t hpos htT
+  obtain ⟨d0, dlo, dhi⟩ := digitsOf_length_bounds hb (Nat.pos_of_ne_zero hxn)
+  generalize mulTrunc t (cpbeBits b) = m2 at *
+  generalize (digitsOf b x.natAbs).length = d at *
+  -- d ≤ r
+  have h1 : d - 1 < m2 + 1 := by
+    have : b ^ (d - 1) < b ^ (m2 + 1) := lt_of_le_of_lt dlo (lt_of_lt_of_le hhi c1)
+    exact (Nat.pow_lt_pow_iff_right (by omega)).mp this
+  -- r ≤ d + 1
+  have h2 : m2 + 1 - 2 < d := by
+    have : b ^ (m2 + 1 - 2) < b ^ d := lt_of_le_of_lt c2 (lt_of_le_of_lt hlo dhi)
+    exact (Nat.pow_lt_pow_iff_right (by omega)).mp this
+  omega
 
 end Mpir.Radix
